@@ -58,7 +58,7 @@ func (c *mChild) ReportCounter(n string, t map[string]string, v int64) {
 	c.add("counter %s %s %d", n, tagString(t), v)
 }
 func (c *mChild) ReportGauge(n string, t map[string]string, v float64) {
-	c.add("gauge %s %s %v", n, tagString(t), v)
+	c.add("gauge %s %s %v bits %x", n, tagString(t), v, math.Float64bits(v))
 }
 func (c *mChild) ReportTimer(n string, t map[string]string, v time.Duration) {
 	c.add("timer %s %s %d", n, tagString(t), int64(v))
@@ -76,7 +76,9 @@ type mHandle struct {
 }
 
 func (h mHandle) ReportCount(v int64)         { h.c.add("%s count %d", h.desc, v) }
-func (h mHandle) ReportGauge(v float64)       { h.c.add("%s gauge %v", h.desc, v) }
+func (h mHandle) ReportGauge(v float64) {
+	h.c.add("%s gauge %v bits %x", h.desc, v, math.Float64bits(v))
+}
 func (h mHandle) ReportTimer(v time.Duration) { h.c.add("%s timer %d", h.desc, int64(v)) }
 func (h mHandle) ReportSamples(v int64)       { h.c.add("%s samples %d", h.desc, v) }
 func (h mHandle) ValueBucket(lo, hi float64) tally.CachedHistogramBucket {
@@ -640,7 +642,175 @@ func c19Jobs(tier string) []*SeqJob {
 		}
 		return guard(func() (string, string) { return capRun(a) })
 	}
-	return []*SeqJob{plain, cached, caps, nested}
+	return []*SeqJob{plain, cached, caps, nested, c19ValuesJob()}
+}
+
+// c19ValuesJob: "all argument values". Every call of both flavours with every member of a value alphabet (zero, both
+// signs, the extremes; for gauges every class of float64 bit pattern) reaches every child exactly once, for 0..5
+// children; the handles of the cached flavour are used several times in a row, zero first, in the middle and last.
+func c19ValuesJob() *SeqJob {
+	ints := []int64{0, 1, -1, 2, math.MaxInt64, math.MinInt64, 0}
+	floats := []float64{0, math.Copysign(0, -1), 1, -1.5, math.SmallestNonzeroFloat64, math.MaxFloat64, -math.MaxFloat64, math.Inf(1), math.Inf(-1),
+		math.NaN(), math.Float64frombits(0x7ff0000000000001), math.Float64frombits(0xfff8000000000abc), 0}
+	tagSets := []map[string]string{nil, {}, {"k": "1"}, {"": ""}}
+	names := []string{"a", ""}
+	run := func(n int, cachedFlavour bool) (string, string) {
+		var log, refLog []string
+		ref := make([]*mChild, n)
+		var ps []tally.StatsReporter
+		var cs []tally.CachedStatsReporter
+		for i := 0; i < n; i++ {
+			ch := &mChild{id: i, log: &log, reporting: true, tagging: true}
+			ps, cs = append(ps, ch), append(cs, ch)
+			ref[i] = &mChild{id: i, log: &refLog, reporting: true, tagging: true}
+		}
+		vb, db := tally.ValueBuckets{0, 1}, tally.DurationBuckets{0, time.Second}
+		check := func(what string) (string, string) {
+			if cl, det := compareLogs(log, refLog, n); cl != "" {
+				return cl, what + ": " + det
+			}
+			log, refLog = log[:0], refLog[:0]
+			return "", ""
+		}
+		if !cachedFlavour {
+			m := multi.NewMultiReporter(ps...)
+			for _, nm := range names {
+				for _, tg := range tagSets {
+					for _, v := range ints {
+						m.ReportCounter(nm, tg, v)
+						m.ReportTimer(nm, tg, time.Duration(v))
+						m.ReportHistogramValueSamples(nm, tg, vb, 0, 1, v)
+						m.ReportHistogramDurationSamples(nm, tg, db, 0, time.Second, v)
+						for _, r := range ref {
+							r.ReportCounter(nm, tg, v)
+						}
+						for _, r := range ref {
+							r.ReportTimer(nm, tg, time.Duration(v))
+						}
+						for _, r := range ref {
+							r.ReportHistogramValueSamples(nm, tg, vb, 0, 1, v)
+						}
+						for _, r := range ref {
+							r.ReportHistogramDurationSamples(nm, tg, db, 0, time.Second, v)
+						}
+						if cl, det := check(fmt.Sprintf("plain calls with name %q tags %v value %d", nm, tg, v)); cl != "" {
+							return cl, det
+						}
+					}
+					for _, v := range floats {
+						m.ReportGauge(nm, tg, v)
+						m.ReportHistogramValueSamples(nm, tg, vb, v, v, 1)
+						for _, r := range ref {
+							r.ReportGauge(nm, tg, v)
+						}
+						for _, r := range ref {
+							r.ReportHistogramValueSamples(nm, tg, vb, v, v, 1)
+						}
+						if cl, det := check(fmt.Sprintf("plain calls with name %q tags %v value %v (bits %x)", nm, tg, v, math.Float64bits(v))); cl != "" {
+							return cl, det
+						}
+					}
+				}
+			}
+			return "", ""
+		}
+		m := multi.NewMultiCachedReporter(cs...)
+		for _, nm := range names {
+			for _, tg := range tagSets {
+				c, g, t := m.AllocateCounter(nm, tg), m.AllocateGauge(nm, tg), m.AllocateTimer(nm, tg)
+				hv, hd := m.AllocateHistogram(nm, tg, vb), m.AllocateHistogram(nm, tg, db)
+				bv, bd := hv.ValueBucket(0, 1), hd.DurationBucket(0, time.Second)
+				var rc []tally.CachedCount
+				var rg []tally.CachedGauge
+				var rtm []tally.CachedTimer
+				var rbv, rbd []tally.CachedHistogramBucket
+				for _, r := range ref {
+					rc = append(rc, r.AllocateCounter(nm, tg))
+				}
+				for _, r := range ref {
+					rg = append(rg, r.AllocateGauge(nm, tg))
+				}
+				for _, r := range ref {
+					rtm = append(rtm, r.AllocateTimer(nm, tg))
+				}
+				var rhv, rhd []tally.CachedHistogram
+				for _, r := range ref {
+					rhv = append(rhv, r.AllocateHistogram(nm, tg, vb))
+				}
+				for _, r := range ref {
+					rhd = append(rhd, r.AllocateHistogram(nm, tg, db))
+				}
+				for _, h := range rhv {
+					rbv = append(rbv, h.ValueBucket(0, 1))
+				}
+				for _, h := range rhd {
+					rbd = append(rbd, h.DurationBucket(0, time.Second))
+				}
+				if cl, det := check(fmt.Sprintf("cached allocations with name %q tags %v", nm, tg)); cl != "" {
+					return cl, det
+				}
+				for _, v := range ints {
+					c.ReportCount(v)
+					for _, r := range rc {
+						r.ReportCount(v)
+					}
+					t.ReportTimer(time.Duration(v))
+					for _, r := range rtm {
+						r.ReportTimer(time.Duration(v))
+					}
+					bv.ReportSamples(v)
+					for _, r := range rbv {
+						r.ReportSamples(v)
+					}
+					bd.ReportSamples(v)
+					for _, r := range rbd {
+						r.ReportSamples(v)
+					}
+					if cl, det := check(fmt.Sprintf("cached handles of name %q tags %v used with value %d", nm, tg, v)); cl != "" {
+						return cl, det
+					}
+				}
+				for _, v := range floats {
+					g.ReportGauge(v)
+					for _, r := range rg {
+						r.ReportGauge(v)
+					}
+					if cl, det := check(fmt.Sprintf("cached gauge of name %q tags %v used with value %v (bits %x)", nm, tg, v, math.Float64bits(v))); cl != "" {
+						return cl, det
+					}
+				}
+			}
+		}
+		return "", ""
+	}
+	j := &SeqJob{Property: "C19", Name: "every-argument-value-reaches-every-child", NoBonus: true}
+	j.Run = func(ctx *SeqCtx) {
+		for n := 0; n <= 5; n++ {
+			for _, cf := range []bool{false, true} {
+				n, cf := n, cf
+				cl, det := guard(func() (string, string) { return run(n, cf) })
+				ops := []string{fmt.Sprint(n), fmt.Sprint(cf)}
+				ctx.Case(len(names)*len(tagSets)*(len(ints)*4+len(floats)*2), true, func() string { return fmt.Sprint(ops) })
+				ctx.State(fmt.Sprint(ops))
+				if cl != "" {
+					ctx.Fail(cl, det, ops)
+					if ctx.viol != nil {
+						return
+					}
+				}
+			}
+		}
+		ctx.Alphabet(fmt.Sprintf("%d integer values x %d float64 bit patterns x %d tag maps x %d names, every call of both flavours", len(ints), len(floats), len(tagSets), len(names)))
+		ctx.DepthDone(1)
+	}
+	j.Replay = func(ops []string) (string, string) {
+		var n int
+		var cf bool
+		fmt.Sscan(ops[0], &n)
+		fmt.Sscan(ops[1], &cf)
+		return guard(func() (string, string) { return run(n, cf) })
+	}
+	return j
 }
 
 func compareLogs(got, want []string, n int) (string, string) {
